@@ -174,6 +174,7 @@ class C15(Monitor):
         self.complete_seen = 0
         self.submit_cmds = {}  # stage number -> count of submissions (Cluster.create) observed
         self.stage_by_node = 0
+        self.first_results = {}
 
     def _stage_no(self, sub):
         return int(sub.outrel.rsplit("stage", 1)[1])
@@ -229,6 +230,13 @@ class C15(Monitor):
             if sub is not None:
                 self._mark(sub, "launch", seq)
 
+    def on_status(self, sub, o):
+        if o.get("completed_now") and sub.outrel not in self.first_results:
+            try:
+                self.first_results[sub.outrel] = state.read_json(os.path.join(sub.out, "results.json")) or {}
+            except state.Unparsable:
+                self.first_results[sub.outrel] = {}
+
     def _observe_pipeline(self, seq, vpid):
         w = self.w
         try:
@@ -255,9 +263,10 @@ class C15(Monitor):
                 if st.get("return_code") is None:
                     self.bad("return_code_missing", "a finished stage has no recorded return code", f"seq {seq}: stage {k}")
                     continue
-                try:
-                    rj = state.read_json(os.path.join(sub.out, "results.json")) or {}
-                except state.Unparsable:
+                # what happened when the stage completed and reported (a later resubmit-jobs on that
+                # stage rewrites results.json; its repeated report is rejected by the pipeline)
+                rj = self.first_results.get(sub.outrel)
+                if rj is None:
                     continue
                 want = 0 if not rj.get("missing_jobs") else 1
                 if (st["return_code"] == 0) != (want == 0):
